@@ -18,7 +18,7 @@ CLAIMED = {
  'C15': dict(text='For the 32 listed PGNs the reference layout table (transcribed from the published definitions, DESIGN.md Appendix A -> Spec/RefLayouts.v, 165 fields) is compared with the REGENERATED setter IR by the proved generic '
                   'theorem layout_sound: one computed layout_matches obligation per PGN gives, for all in-range arguments, that every reference field sits at its bit position with its width, byte order, signedness and resolution; '
                   'the C++ setter bytes are additionally compared with the table run as an encoder; the enumerators an application names for the enumerated fields are compared with the published codes '
-                  '(tools/ref_enum_codes.json, 14 enumerations) on every run; the NAME of PGN 60928 as a node builds it from run-time configuration calls in either order is decoded against the published bit layout.',
+                  '(coq/Spec/RefEnums.v, 14 enumerations) on every run; the NAME of PGN 60928 as a node builds it from run-time configuration calls in either order is decoded against the published bit layout.',
              note=TB + 'Oracle = my transcription of the public layouts.  7 fields (126464 list, 126993 interval in ms, five 129029 fields) are outside the bit-level theorem and compared on the C++ output only.',
              design='6 C05/C15', technique='Coq proof: generic layout theorem + per-PGN obligations over the regenerated model; reference-encoder comparison'),
  'C09': dict(text='Theorems about gf_lib (Model/GroupFnDefs.v), the model of the PGN 126208 handlers (decision + execution through rsend), for every payload up to 223 bytes: exactly one answer to the requester for addressed '
